@@ -59,3 +59,24 @@ Theorem C18_groups_logarithmic :
   pGrowth P ^ length t * fub_cap a <= last_cap (a :: t).
 Proof. exact groups_logarithmic. Qed.
 Print Assumptions C18_groups_logarithmic.
+
+(** the whole-history bound for FuturesUnordered / MergeUnbounded as one theorem: for every
+    history, with A = the sum of the per-operation allocation counters and peak = the largest
+    number of children held at any moment, there is k (the number of groups created by pushes)
+    with A <= 3 * k + 3 and growth^(k-2) <= peak — so A <= 3 * log_growth(peak) + 9, however many
+    children are processed and whatever the pattern of filling, draining and refilling *)
+From FB Require Import StepProofs Reach AllocHistory.
+Theorem C18_allocations_logarithmic_in_peak :
+  forall (P : params), params_ok P -> forall (ops : list op),
+  GI P (st_coll (reach P ops)) (list_sum (run_allocs P init_state ops)) (run_peak P init_state ops).
+Proof. exact allocations_logarithmic_in_peak. Qed.
+Print Assumptions C18_allocations_logarithmic_in_peak.
+
+(** what [GI] says for the two unbounded collections, spelled out *)
+Theorem C18_allocations_logarithmic_in_peak_unfolded :
+  forall (P : params), params_ok P -> forall (ops : list op) (u : fu),
+  st_coll (reach P ops) = CFu u \/ st_coll (reach P ops) = CMu u ->
+  exists k, list_sum (run_allocs P init_state ops) <= 3 * k + 3
+            /\ (2 <= k -> pGrowth P ^ (k - 2) <= run_peak P init_state ops).
+Proof. exact allocations_logarithmic_unfolded. Qed.
+Print Assumptions C18_allocations_logarithmic_in_peak_unfolded.
